@@ -143,147 +143,203 @@ impl CondForm {
 }
 
 // ---------------------------------------------------------------- alphabets
+//
+// All alphabets are *ordered by priority*; a skeleton uses a prefix of each (sizes in
+// `skeleton_sizes`), so that the expensive skeletons (four free blocks, two conditions)
+// stay enumerable. The full lists are used by the cheap skeletons.
 
-/// The def alphabet. `level` 0 = quick core, 1 = thorough.
-pub fn def_alphabet(level: u32) -> Vec<DefForm> {
+/// Slot forms (sequences of <= 2 defs) of the "active" blocks.
+pub fn slot_alphabet() -> Vec<Vec<DefForm>> {
     use DefForm::*;
-    let mut v = vec![
-        Const(A, 0),
-        Const(A, 5),
-        AddC(A, A, 1),
-        AddC(A, D, 8),
-        AddC(A, A, -1),
-        MulC(A, A, 4),
-        AndC(A, A, 0xff),
-        Cmp(BinOpType::IntSLess, Opd::R(A), Opd::C(5)),
-        StoreSp(-8, A),
-        LoadSp(A, -8),
-        Deref(A, D),
-        Deref(A, A),
+    let slt5 = Cmp(BinOpType::IntSLess, Opd::R(A), Opd::C(5));
+    let mut v: Vec<Vec<DefForm>> = vec![
+        vec![],
+        vec![Const(A, 0)],
+        vec![AddC(A, A, 1)],
+        vec![AddC(A, D, 8)],
+        vec![StoreSp(-8, A)],
+        vec![LoadSp(A, -8)],
+        vec![Deref(A, A)],
+        vec![MulC(A, A, 4)],
+        // 8
+        vec![AndC(A, A, 0xff)],
+        vec![Const(A, 5)],
+        vec![AddC(A, A, -1)],
+        vec![Deref(A, D)],
+        // 12
+        vec![AddC(D, D, 1)],
+        vec![slt5],
+        vec![Const(A, -1)],
+        vec![AddC(A, A, 1), StoreSp(-8, A)],
+        // 16
+        vec![AddC(A, SP, -16)],
+        vec![StoreSp(-8, D)],
+        vec![MulC(A, A, 2)],
+        vec![AndC(A, A, -16)],
+        vec![Deref(D, D)],
+        vec![slt5, AddC(A, A, 1)],
+        vec![AddC(A, A, 8)],
+        vec![Const(A, 2000)],
+        vec![Const(D, 0)],
+        vec![MulC(A, D, 8)],
+        vec![Deref(A, S)],
+        vec![StoreSp(8, A)],
+        vec![LoadSp(A, 8)],
+        vec![LoadSp(A, -8), AddC(A, A, 1)],
+        // 30
+        vec![AddC(A, D, 0)],
+        vec![AddC(D, D, -8)],
+        vec![MulC(A, A, -1)],
+        vec![AndC(A, D, 7)],
+        vec![Cmp(BinOpType::IntEqual, Opd::R(A), Opd::C(5))],
+        vec![Cmp(BinOpType::IntLess, Opd::R(A), Opd::R(D))],
+        vec![Cmp(BinOpType::IntSLessEqual, Opd::R(D), Opd::C(0))],
+        vec![Cmp(BinOpType::IntNotEqual, Opd::R(D), Opd::R(S))],
+        vec![StoreSp(-16, A)],
+        vec![StoreSp(-12, A)],
+        vec![LoadSp(D, -8)],
+        vec![LoadSp(A, -16)],
+        vec![LoadSp(A, -12)],
+        vec![AddC(A, A, 4)],
+        vec![Const(A, 1024)],
+        vec![Const(A, 1023)],
     ];
-    if level >= 1 {
-        v.extend([
-            Const(A, -1),
-            Const(A, 2000),
-            Const(D, 0),
-            AddC(A, D, 0),
-            AddC(A, SP, -16),
-            AddC(D, D, 1),
-            AddC(D, D, -8),
-            AddC(A, A, 8),
-            MulC(A, A, 2),
-            MulC(A, D, 8),
-            MulC(A, A, -1),
-            AndC(A, A, -16),
-            AndC(A, D, 7),
-            Cmp(BinOpType::IntEqual, Opd::R(A), Opd::C(5)),
-            Cmp(BinOpType::IntLess, Opd::R(A), Opd::R(D)),
-            Cmp(BinOpType::IntSLessEqual, Opd::R(D), Opd::C(0)),
-            Cmp(BinOpType::IntNotEqual, Opd::R(D), Opd::R(S)),
-            StoreSp(-8, D),
-            StoreSp(-16, A),
-            StoreSp(8, A),
-            StoreSp(-12, A),
-            LoadSp(D, -8),
-            LoadSp(A, -16),
-            LoadSp(A, 8),
-            LoadSp(A, -12),
-            Deref(D, D),
-            Deref(A, S),
-        ]);
-    }
-    v
-}
-
-/// Slot forms: the empty slot, every single def, and def pairs.
-/// quick: pairs from a curated list; thorough: every ordered pair of the *core* alphabet
-/// plus the curated list over the full alphabet.
-pub fn slot_alphabet(level: u32) -> Vec<Vec<DefForm>> {
-    use DefForm::*;
-    let defs = def_alphabet(level);
-    let mut v: Vec<Vec<DefForm>> = vec![vec![]];
-    v.extend(defs.iter().map(|d| vec![*d]));
-    let curated: Vec<[DefForm; 2]> = vec![
-        [StoreSp(-8, A), LoadSp(A, -8)],
-        [Const(A, 0), StoreSp(-8, A)],
-        [AddC(A, A, 1), StoreSp(-8, A)],
-        [LoadSp(A, -8), AddC(A, A, 1)],
-        [Cmp(BinOpType::IntSLess, Opd::R(A), Opd::C(5)), AddC(A, A, 1)],
-        [Const(A, 0), Deref(A, A)],
-        [MulC(A, A, 4), AddC(A, A, 1)],
-        [AddC(A, D, 8), Deref(A, A)],
-    ];
-    for p in curated {
-        v.push(p.to_vec());
-    }
-    if level >= 1 {
-        let core = def_alphabet(0);
-        for a in &core {
-            for b in &core {
-                let p = vec![*a, *b];
-                if !v.contains(&p) {
-                    v.push(p);
-                }
-            }
-        }
-        let more: Vec<[DefForm; 2]> = vec![
-            [StoreSp(-8, D), LoadSp(A, -8)],
-            [StoreSp(-8, A), LoadSp(A, -12)],
-            [StoreSp(-12, A), LoadSp(A, -8)],
-            [StoreSp(8, A), LoadSp(A, 8)],
-            [Const(A, -1), MulC(A, A, 2)],
-            [AndC(A, A, -16), AddC(A, A, 8)],
-            [Cmp(BinOpType::IntLess, Opd::R(A), Opd::R(D)), AddC(D, D, 1)],
-            [AddC(A, SP, -16), Deref(A, A)],
-            [Const(A, 2000), Deref(A, A)],
-            [AddC(D, D, -8), Deref(A, D)],
-        ];
-        for p in more {
-            let p = p.to_vec();
+    // every ordered pair of the eight non-empty core defs, then a curated list of further pairs
+    let core: Vec<DefForm> = v[1..=8].iter().map(|f| f[0]).collect();
+    for a in &core {
+        for b in &core {
+            let p = vec![*a, *b];
             if !v.contains(&p) {
                 v.push(p);
             }
         }
     }
-    v
-}
-
-/// Operand pairs of the comparison conditions.
-pub fn cond_operands(level: u32) -> Vec<(Opd, Opd)> {
-    let mut v = vec![(Opd::R(A), Opd::C(5)), (Opd::R(A), Opd::R(D))];
-    if level >= 1 {
-        v.extend([(Opd::C(5), Opd::R(A)), (Opd::R(D), Opd::C(0)), (Opd::R(D), Opd::R(S)), (Opd::R(A), Opd::C(1024)), (Opd::R(A), Opd::C(-1))]);
-    }
-    v
-}
-
-/// Condition forms: bare flag / negated flag, and for every comparison x operand pair the
-/// three ways to branch on it.
-pub fn cond_alphabet(level: u32) -> Vec<CondForm> {
-    let mut v = vec![CondForm::Flag, CondForm::NotFlag];
-    for (l, r) in cond_operands(level) {
-        for op in CMPS {
-            v.push(CondForm::Direct(op, l, r));
-            v.push(CondForm::FlagOf(op, l, r));
-            v.push(CondForm::NotFlagOf(op, l, r));
+    let more: Vec<[DefForm; 2]> = vec![
+        [StoreSp(-8, D), LoadSp(A, -8)],
+        [StoreSp(-8, A), LoadSp(A, -12)],
+        [StoreSp(-12, A), LoadSp(A, -8)],
+        [StoreSp(8, A), LoadSp(A, 8)],
+        [Const(A, -1), MulC(A, A, 2)],
+        [AndC(A, A, -16), AddC(A, A, 8)],
+        [Cmp(BinOpType::IntLess, Opd::R(A), Opd::R(D)), AddC(D, D, 1)],
+        [AddC(A, SP, -16), Deref(A, A)],
+        [Const(A, 2000), Deref(A, A)],
+        [AddC(D, D, -8), Deref(A, D)],
+        [Const(A, 5), Deref(A, A)],
+        [Const(A, 1024), Deref(A, A)],
+        [Deref(A, D), Deref(A, A)],
+        [AddC(A, D, 8), Deref(A, A)],
+    ];
+    for p in more {
+        let p = p.to_vec();
+        if !v.contains(&p) {
+            v.push(p);
         }
     }
     v
+}
+
+/// Slot forms of the "consumer" blocks (join block of an if, block after a loop).
+pub fn use_alphabet() -> Vec<Vec<DefForm>> {
+    use DefForm::*;
+    vec![vec![], vec![LoadSp(A, -8)], vec![Deref(A, A)], vec![MulC(A, A, 4)], vec![AddC(A, A, 1)], vec![Deref(A, D)], vec![StoreSp(-8, A)], vec![AndC(A, A, 0xff)]]
+}
+
+/// Condition forms of the first conditional jump.
+pub fn cond_alphabet() -> Vec<CondForm> {
+    use CondForm::*;
+    let a5 = (Opd::R(A), Opd::C(5));
+    let ad = (Opd::R(A), Opd::R(D));
+    let mut v = Vec::new();
+    for op in CMPS {
+        v.push(Direct(op, a5.0, a5.1));
+    }
+    for op in CMPS {
+        v.push(NotFlagOf(op, a5.0, a5.1));
+    }
+    for op in [BinOpType::IntEqual, BinOpType::IntNotEqual, BinOpType::IntLess, BinOpType::IntSLess] {
+        v.push(Direct(op, ad.0, ad.1));
+    }
+    v.push(Flag);
+    // 17
+    for op in CMPS {
+        v.push(FlagOf(op, a5.0, a5.1));
+    }
+    v.push(Direct(BinOpType::IntLessEqual, ad.0, ad.1));
+    v.push(Direct(BinOpType::IntSLessEqual, ad.0, ad.1));
+    v.push(NotFlag);
+    // 26
+    for (l, r) in [(Opd::R(D), Opd::C(0)), (Opd::R(A), Opd::C(1024)), (Opd::R(D), Opd::R(S)), (Opd::R(A), Opd::C(-1)), (Opd::C(5), Opd::R(A)), (Opd::R(A), Opd::C(0))] {
+        for op in CMPS {
+            v.push(Direct(op, l, r));
+        }
+    }
+    // 62
+    for op in CMPS {
+        v.push(NotFlagOf(op, ad.0, ad.1));
+    }
+    for op in CMPS {
+        v.push(FlagOf(op, ad.0, ad.1));
+    }
+    for op in CMPS {
+        v.push(NotFlagOf(op, Opd::R(D), Opd::C(0)));
+    }
+    v
+}
+
+/// Condition forms of the second conditional jump (skeletons with two).
+pub fn cond2_alphabet() -> Vec<CondForm> {
+    use CondForm::*;
+    vec![
+        Direct(BinOpType::IntSLess, Opd::R(A), Opd::C(5)),
+        Direct(BinOpType::IntNotEqual, Opd::R(A), Opd::R(D)),
+        NotFlagOf(BinOpType::IntLessEqual, Opd::R(A), Opd::C(5)),
+        Direct(BinOpType::IntEqual, Opd::R(A), Opd::C(5)),
+        Flag,
+        Direct(BinOpType::IntLess, Opd::R(A), Opd::R(D)),
+        Direct(BinOpType::IntSLessEqual, Opd::R(D), Opd::C(0)),
+        NotFlagOf(BinOpType::IntNotEqual, Opd::R(A), Opd::C(5)),
+    ]
+}
+
+/// Prefix sizes (active slot forms, consumer slot forms, first conditions, second conditions)
+/// used by skeleton `s` in tier `level` (0 quick, 1 thorough); `usize::MAX` = the full list.
+pub fn skeleton_sizes(level: u32, s: usize) -> (usize, usize, usize, usize) {
+    const ALL: usize = usize::MAX;
+    if level == 0 {
+        match s {
+            0 => (46, 0, 0, 0),
+            1 => (8, 3, 17, 0),
+            2 => (16, 3, 17, 0),
+            3 => (8, 3, 17, 0),
+            4 => (8, 0, 17, 3),
+            _ => (7, 3, 17, 3),
+        }
+    } else {
+        match s {
+            0 => (ALL, 0, 0, 0),
+            1 => (16, 6, 48, 0),
+            2 => (30, 6, 48, 0),
+            3 => (16, 6, 48, 0),
+            4 => (16, 0, 30, 8),
+            _ => (12, 5, 24, 6),
+        }
+    }
 }
 
 // ---------------------------------------------------------------- skeletons
 
 pub const N_SKELETONS: usize = 6;
 pub const SKELETON_NAMES: [&str; N_SKELETONS] = ["line", "if-else", "do-while", "while", "loop-two-exits", "nested-if"];
-/// (number of slots, number of conditions)
-pub fn skeleton_shape(s: usize) -> (usize, usize) {
+/// Roles of the slots of skeleton `s` (true = active block, false = consumer block) and its number of conditions.
+pub fn skeleton_shape(s: usize) -> (&'static [bool], usize) {
     match s {
-        0 => (2, 0),
-        1 => (4, 1),
-        2 => (3, 1),
-        3 => (4, 1),
-        4 => (3, 2),
-        _ => (4, 2),
+        0 => (&[true, true], 0),
+        1 => (&[true, true, true, false], 1),
+        2 => (&[true, true, false], 1),
+        3 => (&[true, true, true, false], 1),
+        4 => (&[true, true, true], 2),
+        _ => (&[true, true, true, false], 2),
     }
 }
 
